@@ -7,8 +7,7 @@
  *               foreign name, pairwise different (kit/vp_names.h encoding)
  *   live set    ldb_versions_add_files stub: <= VP_LIVE symbolic table numbers
  *   pending     db.pending_outputs: <= VP_PEND symbolic numbers, held by the
- *               REAL util/rbt.c red-black tree (-DVP_REAL_RBT, rbt.c linked)
- *               or by the small array model of the rb_set64 API below
+ *               small array model of the rb_set64 API below
  *   to_delete   the REAL util/vector.c (typed pointer slab, kit/vp_alloc_d1.c)
  *   recorders   ldb_remove_file, ldb_tables_evict, ldb_free_children
  *
@@ -52,7 +51,8 @@ static ldb_versions_t vs;
 static int vp_tables_obj;   /* identity of the table cache */
 
 /* ---- rb_set64 ---------------------------------------------------------- */
-#ifndef VP_REAL_RBT
+/* The REAL util/rbt.c does not get through symbolic execution with symbolic
+   keys (smallest configuration, 1+1 keys: no verdict in 200 s), hence: */
 /* Array model of the part of util/rbt.h that db_impl.c uses on sets of file
    numbers: init / copy / clear / has / put / del.  A tree object owns one
    slot array (tree->arg).  Slots are concrete: the harness side fills
@@ -151,14 +151,7 @@ vp_set_add_at(rb_tree_t *tree, int k, int enable, uint64_t item) {
   s->used[k] = enable;
   s->v[k] = item;
 }
-#else
-static void
-vp_set_add_at(rb_tree_t *tree, int k, int enable, uint64_t item) {
-  (void)k;
-  if (enable)
-    rb_set64_put(tree, item);
-}
-#endif /* !VP_REAL_RBT */
+
 
 /* ---- directory ---------------------------------------------------------- */
 static char dir_name[VP_N][VP_NAME_LEN];
